@@ -35,6 +35,19 @@ def main(argv):
             return 2
         R, technique = fn(P, tier)
         R.analysed.setdefault("source_digest", P.digest())
+        if tier == "thorough" and not os.environ.get("VERIF_EVIDENCE_DIR"):
+            import selftest
+            from report import req_ob
+
+            recs, summ = selftest.run_selftest(prop)
+            for r in recs:
+                if r.get("skipped"):
+                    continue
+                what = ("breaking variant %s of the current source makes the check fire" if r["kind"] != "preserve" else "behaviour-preserving variant %s of the current source leaves the check silent") % r["id"]
+                R.add(req_ob("R-SELFTEST", "checker self-test on a scratch copy of /repo/src", what, True if r["ok"] else None,
+                             detail=None if r["ok"] else "exit code %s, expected %s: %s" % (r["rc"], r["expected"], "; ".join(r["lines"])[:300])))
+            R.extra["selftest"] = summ
+            R.extra["exhaustive"] = R.extra.get("exhaustive", False)
         return R.finish(technique)
     except AnalysisError as e:
         print("ANALYSIS-ERROR property=%s: %s" % (prop, e))
